@@ -56,6 +56,42 @@ func init() {
 	probes["O53"] = probeO53
 	probes["O54"] = probeO54
 	probes["O55"] = probeO55
+	probes["O56"] = probePanics(func() {
+		var t struct{ X ucfg.Initializer }
+		ucfg.New().Unpack(&t)
+	})
+	probes["O57"] = func() (bool, string) {
+		c := ucfg.New()
+		err := c.SetChild("a", -1, c)
+		return err == nil, fmt.Sprint(err)
+	}
+	probes["O58"] = probeBounded(func() {
+		type node struct {
+			V    int
+			Next *node
+		}
+		n := &node{}
+		n.Next = n
+		c, _ := ucfg.NewFrom(map[string]interface{}{"v": 1})
+		c.Unpack(n)
+	})
+	probes["O59"] = probeBounded(func() {
+		c, _ := ucfg.NewFrom(map[string]interface{}{"a": []interface{}{"${a}"}}, ucfg.VarExp)
+		var t struct{ A probeL }
+		c.Unpack(&t, ucfg.VarExp)
+	})
+	probes["O60"] = probePanics(func() {
+		c, _ := ucfg.NewFrom([]interface{}{1, 2})
+		t := struct {
+			X interface{} `config:",inline"`
+		}{X: []int{7}}
+		c.Unpack(&t)
+	})
+	probes["O61"] = probeBounded(func() {
+		c, _ := ucfg.NewFrom(map[string]interface{}{"a": "x"})
+		var t struct{ A probeL }
+		c.Unpack(&t)
+	})
 	probes["O48"] = probeO48
 	probes["O49"] = probeO49
 	probes["O47"] = probeO47
@@ -789,4 +825,26 @@ func probeO55() (bool, string) {
 		w, _ := c.String("w", -1, ucfg.VarExp)
 		return err != nil || v != w, fmt.Sprint(v, " ", err, " / ", w)
 	})
+}
+
+type probeL []probeL
+
+// probeBounded: the defect shows as a scenario that does not come to an end - the hook at every
+// function entry of the instrumented build stops it after 3*10^5 entries (well before the stack
+// is exhausted) - or panics.
+func probeBounded(f func()) func() (bool, string) {
+	return func() (bool, string) {
+		steps := 0
+		zzsimhook.OnEnter = func(string) {
+			steps++
+			if steps > 300000 {
+				panic("does not come to an end")
+			}
+		}
+		defer func() { zzsimhook.OnEnter = nil }()
+		return guard(func() (bool, string) {
+			f()
+			return false, "returned"
+		})
+	}
 }
